@@ -14,6 +14,9 @@ REGISTRY = {
     'C02': ('c02', []),
     'C18': ('c18', []),
     'C10': ('c10', []),
+    'C20': ('c20', ['CPython hash randomisation as exercised by PYTHONHASHSEED in child processes']),
+    'C11': ('c11', ['tolerances of harness/c11.py: 1e-8 * sum|data| / minsep^order (1e-4 inside a snapping band)']),
+    'C17': ('c17', ['rounding allowances of harness/c17.py and harness/p_exact.py for twin and exact-polynomial comparisons']),
     'C03': ('c03', ['rounding allowance 2^-30 * 64 * (sum|coef*monomial| + 1) for the comparison with the exact polynomial value']),
     'C05': ('c05', ['rounding bound of DESIGN 3.3: |float - exact| <= 2^-30 * sum|terms| (harness/lagr.py)']),
 }
